@@ -397,6 +397,7 @@ func (w *world) run(cond func() bool, deadline time.Duration) stopReason {
 	for {
 		synctest.Wait()
 		s.cur = nil
+		vsimProgress.Add(1)
 		if s.harnessErr != "" {
 			w.abort("harness: " + s.harnessErr)
 			return stopAbort
